@@ -13,8 +13,9 @@ from corr.scalevar import LABELS, NG, key_lit, mat_lit, vec_lit, HEADER
 
 
 class _Coeff:
-    def __init__(self, cp, vecs):
+    def __init__(self, cp, vecs, nf=None):
         self.cp, self.vecs = cp, vecs           # vecs: order -> vector of the convolution with every basis function (times cp)
+        self.nf = nf                            # the kernel's own nf: heavy-quark-initiated kernels carry ihq-1, NOT the scheme's nf
 
     def __getitem__(self, o):
         return lambda: ("rsl-token", self, o)
@@ -97,7 +98,9 @@ def one_manager(rng):
                 vecs[o] = np.array([float(rng.randint(-8, 8)) / 2 for _ in range(NG)])
         if not vecs:
             continue
-        elem = _Elem({pid: w for pid, w in zip(pids, p) if w != 0.0}, _Coeff(cp, vecs), "intrinsic" if intrinsic else "light")
+        # as in intrinsic/kernels.py the kernel's own nf may differ from the Combiner's: the scale variations must follow the latter
+        own_nf = rng.choice([n for n in (3, 4, 5, 6) if n != nf]) if intrinsic else nf
+        elem = _Elem({pid: w for pid, w in zip(pids, p) if w != 0.0}, _Coeff(cp, vecs, own_nf), "intrinsic" if intrinsic else "light")
         try:
             out = run_real_compute_local(svm, ip, pto, nf, [elem], x)
             err = None
